@@ -35,6 +35,10 @@ type mEntry struct {
 	removeAt int64 // earliest possible deadline of the pending removal; -1: none pending
 	removeHi int64 // latest possible deadline (the clock may have jumped while the removing call ran)
 	refs     int
+	// unsure: the container's context was cancelled by its owner while this key's routine may have been running
+	// (or it was started under the dead context): whether the library counts it as failed is not known to the
+	// model, so a removal may be immediate or delayed
+	unsure bool
 }
 
 type kinst struct {
@@ -71,6 +75,19 @@ type setWorld struct {
 	// retry obligations (C07.K3): key -> failed instance whose retry must still happen
 	due    map[string]*kinst
 	voided map[*kinst]bool
+	// rootDead: the context currently held by the container has been cancelled by its owner
+	rootDead bool
+	nilTok   map[int]bool // tokens whose constructor returned no routine
+}
+
+// sure reports whether the model knows how the library classifies the routine of e when the
+// container's context dies: no routine at all, or an instance that returned on its own before.
+func (w *setWorld) sure(e *mEntry) bool {
+	if w.nilTok[e.token] {
+		return true
+	}
+	in := w.instOf[e.token]
+	return in != nil && in.returned != 0 && in.liveExit
 }
 
 // void drops the retry obligation of key: a restarting call, a removal or a context change happened.
@@ -101,6 +118,7 @@ func (w *setWorld) ctor(key string) (keyed.Routine, int) {
 	if c.S.PlanP(60) {
 		// a constructor may return no routine: the key is in the set like any other (release delay included), nothing runs for it
 		c.S.Count("probe:nil-routine")
+		w.nilTok[tok] = true
 		return nil, tok
 	}
 	return func(ctx context.Context) error {
@@ -214,6 +232,13 @@ func (w *setWorld) modelRemove(key string, t0 int64) {
 		delete(w.model, key)
 		return
 	}
+	if e.unsure {
+		// ended by (or started under) an owner-cancelled context: gone at once or at the deadline
+		e.removeAt = t0
+		e.removeHi = w.c.S.Now() + w.delay
+		w.c.S.Count("probe:removal-after-root-cancel-either")
+		return
+	}
 	e.removeAt = t0 + w.delay
 	e.removeHi = w.c.S.Now() + w.delay
 	w.c.S.Count("probe:delayed-removal-armed")
@@ -273,6 +298,7 @@ func (w *setWorld) opSetKey(key string, start bool) {
 			return
 		}
 		e := &mEntry{token: w.nextTok, removeAt: -1, removeHi: -1}
+		e.unsure = w.rootDead && !w.nilTok[e.token]
 		w.model[key] = e
 		w.byTok[e.token] = e
 		w.checkData("SetKey", key, data)
@@ -311,6 +337,10 @@ func (w *setWorld) opSync(keys []string, restart bool) {
 	tokBefore := w.nextTok
 	t0 := c.S.Now()
 	added, removed := w.k.SyncKeys(keys, restart)
+	if w.rootDead {
+		// SyncKeys drops a context that has ended: from here on the container has none
+		w.rootDead, w.ctxOn = false, false
+	}
 	want := map[string]bool{}
 	var wantAdded []string
 	for _, key := range keys {
@@ -431,6 +461,7 @@ func (w *setWorld) opAddRef(key string) {
 			return
 		}
 		e := &mEntry{token: w.nextTok, removeAt: -1, removeHi: -1, refs: 1}
+		e.unsure = w.rootDead && !w.nilTok[e.token]
 		w.model[key] = e
 		w.byTok[e.token] = e
 		w.checkData("AddKeyRef", key, data)
@@ -542,7 +573,7 @@ func (w *setWorld) compareSets(settled bool) {
 
 // retry obligations (C07.K3)
 func (w *setWorld) noteFailures() {
-	if !w.retry || !w.ctxOn {
+	if !w.retry || !w.ctxOn || w.rootDead {
 		return
 	}
 	for _, key := range keysU {
@@ -584,7 +615,7 @@ func (w *setWorld) checkRetries() {
 }
 
 func runSet(c *core.Ctx) {
-	w := &setWorld{c: c, model: map[string]*mEntry{}, byTok: map[int]*mEntry{}, due: map[string]*kinst{}, instOf: map[int]*kinst{}, streak: map[int]int{}, baseIvl: retryNs, voided: map[*kinst]bool{}}
+	w := &setWorld{c: c, model: map[string]*mEntry{}, byTok: map[int]*mEntry{}, due: map[string]*kinst{}, instOf: map[int]*kinst{}, streak: map[int]int{}, baseIvl: retryNs, voided: map[*kinst]bool{}, nilTok: map[int]bool{}}
 	c.PanicOracle = "C06.P.panic"
 	if c.S.PlanP(550) {
 		w.delay = delayNs
@@ -628,7 +659,7 @@ func runSet(c *core.Ctx) {
 	}
 	c.Descf("keyedset: refcount=%v delay=%dms retry=%v failing=%v settle=%v", useRC, w.delay/1e6, w.retry, w.failing, w.settle)
 	ctx, cancel := context.WithCancel(context.Background())
-	defer cancel()
+	defer func() { cancel() }()
 	setCtx := func(on bool) {
 		var cx context.Context
 		if on {
@@ -641,6 +672,7 @@ func runSet(c *core.Ctx) {
 			w.k.SetContext(cx, false)
 		}
 		w.ctxOn = on
+		w.rootDead = false
 		for _, key := range keysU {
 			w.void(key) // errored routines are documented not to restart when the context is cleared and set again
 		}
@@ -658,6 +690,23 @@ func runSet(c *core.Ctx) {
 		} else {
 			w.k.SetContext(ctx, false)
 		}
+		w.rootDead = false
+	}
+	// killRoot: the owner of the context handed to the container cancels it behind the container's back.
+	// Routines that are running end with the context's error; the key set is untouched, and a key whose
+	// routine had completed on its own (or has none) keeps its release delay (C06).
+	killRoot := func() {
+		c.Descf("fault: the owner cancels the context the container holds")
+		c.S.Count("fault:root-cancel")
+		for _, key := range keysU {
+			w.void(key)
+			if e := w.model[key]; e != nil && !w.sure(e) {
+				e.unsure = true
+			}
+		}
+		w.rootDead = true
+		cancel()
+		ctx, cancel = context.WithCancel(context.Background())
 	}
 	if c.S.PlanP(800) {
 		setCtx(true)
@@ -719,7 +768,9 @@ func runSet(c *core.Ctx) {
 			c.S.Count("fault:time-jump")
 			c.S.Advance(d)
 		case k < 18:
-			if w.ctxOn && c.S.PlanP(500) {
+			if w.ctxOn && !w.rootDead && !w.retry && c.S.FaultP(350) {
+				killRoot()
+			} else if w.ctxOn && c.S.PlanP(500) {
 				switchCtx()
 			} else {
 				setCtx(!w.ctxOn)
